@@ -5,6 +5,7 @@ import (
 	"runtime"
 	"strings"
 	"sync"
+	"sync/atomic"
 	"time"
 
 	"github.com/mit-pdos/go-nfsd/fstxn"
@@ -33,8 +34,22 @@ var tracers sync.Map // *fstxn.FsState -> *tracer
 
 const LivelockLimit = 2000
 
+// hookImpl is what the (single, never re-assigned) hook of the repository calls: the sequential tracer by default,
+// the concurrent runner's while it is active.  Swapping it is an atomic store, so goroutines of abandoned calls that
+// are still inside the server never race with the harness on the hook variable itself.
+var hookImpl atomic.Value
+
+type hookFn func(kind int, op *fstxn.FsTxn, arg uint64)
+
 func installHook() {
+	hookImpl.Store(hookFn(seqHook))
 	fstxn.VerifHook = func(kind int, op *fstxn.FsTxn, arg uint64) {
+		hookImpl.Load().(hookFn)(kind, op, arg)
+	}
+}
+
+func seqHook(kind int, op *fstxn.FsTxn, arg uint64) {
+	{
 		v, ok := tracers.Load(op.Fs)
 		if !ok {
 			return
